@@ -42,7 +42,18 @@ class PedRuns(BCheck):
             fam = r.choice([("trio",), ("trio",), ("quartet",)])
             g = PED.generate(r, families=fam, unrelated=r.choice([0, 0, 1]), conflict=0.15 if i % 2 else 0.0, missing=0.1 if i % 3 == 0 else 0.0,
                              k_files=(0, 0) if i % 4 == 0 else (1, 2), crossover=0.1)
-            yield dict(main_vcf=g["main_vcf"], phase_vcfs=g["phase_vcfs"], ped=g["ped"], trios=g["trios"], tag="PS" if i % 5 else "HP",
+            main = g["main_vcf"]
+            if i % 3 == 1:
+                # a multi-allelic record (never phased) directly before a biallelic record at the same position: the biallelic one is still "the" variant there
+                lines = main.rstrip("\n").split("\n")
+                body = [k for k, l in enumerate(lines) if not l.startswith("#")]
+                for k in sorted(r.sample(body, min(len(body), r.randint(1, 2))), reverse=True):
+                    c = lines[k].split("\t")
+                    others = [b for b in "ACGT" if b != c[3] and b != c[4]]
+                    dup = c[:4] + [",".join(others)] + c[5:9] + ["0/0"] * (len(c) - 9)
+                    lines.insert(k, "\t".join(dup))
+                main = "\n".join(lines) + "\n"
+            yield dict(main_vcf=main, phase_vcfs=g["phase_vcfs"], ped=g["ped"], trios=g["trios"], tag="PS" if i % 5 else "HP",
                        recombrate=r.choice([1.26, 1.26, 50.0, 1e5]))
 
     def check(self, inp):
